@@ -78,7 +78,8 @@ impl Stats {
     /// # Ok::<(),error::CIError>(())
     /// ```
     pub fn ci(&self, confidence: Confidence, quantile: f64) -> CIResult<Interval<usize>> {
-        if quantile <= 0. || 1. <= quantile {
+        // NB: written so that a NaN quantile is rejected too
+        if !(0. < quantile && quantile < 1.) {
             return Err(error::CIError::InvalidQuantile(quantile));
         }
 
@@ -144,8 +145,9 @@ impl Stats {
         if self.population == 0 {
             return Err(error::CIError::TooFewSamples(self.population));
         }
+        // NB: written so that a NaN quantile is rejected too
         #[allow(clippy::manual_range_contains)]
-        if quantile < 0. || 1. < quantile {
+        if !(0. <= quantile && quantile <= 1.) {
             return Err(error::CIError::InvalidQuantile(quantile));
         }
         let index = (quantile * self.population as f64).floor() as usize;
